@@ -445,3 +445,74 @@ def topic_origin_name(prog, bi, o):
         n = bi.body.local_name(o.data)
         return "var:" + n if n else None
     return None
+
+
+@rule("C01", "R01.7", "a future that can be dropped by a select! does not suspend while it alone holds removed deliveries", floor=1)
+@rule("C03", "R01.7", "a future that can be dropped by a select! does not suspend while it alone holds removed deliveries", floor=1)
+@rule("C04", "R01.7", "a future that can be dropped by a select! does not suspend while it alone holds removed deliveries", floor=1)
+def r01_7(prog, out):
+    """The losing branches of a `tokio::select!` are dropped at whatever await they are suspended in.  A branch future that has
+    taken deliveries out of the tracker / backlog and then awaits anything before handing them back (returning them) loses
+    them when another branch wins: neither outstanding nor queued nor acknowledged."""
+    from mapstate import _bool_switches
+    R = roles(prog)
+    cells = {R.t_messages, R.t_expirations, R.backlog}
+    branches = set()
+    for b in prog.facts.lib_bodies():
+        if not b.coroutine:
+            continue
+        bi = prog.info(b.id)
+        for a in bi.awaits:
+            if a.select is None:
+                continue
+            for br in a.select.branches:
+                cid = prog.body_of_type(b, br.fut_ty)
+                if cid and prog.facts.body(cid) is not None:
+                    branches.add(cid)
+    n = 0
+    for cid in sorted(branches):
+        ci = prog.info(cid)
+        # removals this future performs itself (directly or through a synchronous helper that hands the removed deliveries back to
+        # it); a request handler of the actor reached through the dispatcher is a synchronous step that pairs its own pops (R01.4)
+        ops = set(R.actor_methods(R.sub_actor)) | {R.sub_actor.dispatch}
+        ops |= {prog.facts.body(x).root for x in list(ops) if prog.facts.body(x) is not None and prog.facts.body(x).root}
+        rem = [e for e in prog.effects(cid) if e.kind in L.REMOVE_KINDS and any(c in cells for c in e.cells) and not e.spawned
+               and not any(cb in ops for cb, _ in e.chain)
+               and not any(prog.facts.body(cb) is not None and prog.facts.body(cb).coroutine and cb != cid for cb, _ in e.chain)]     # another future's removals: its own instance
+        if not rem:
+            continue
+        n += 1
+        key = "cancel-safe:%s" % prog.short(cid)
+        ys = set(ci.yields())
+        bad = None
+        for e in rem:
+            t = ci.call_at(e.bb)
+            # blocks only reached when what was removed is empty (nothing is held then)
+            empty = set()
+            if t.k == "call" and t.dest is not None and t.dest.is_local():
+                dkey = ci.trace(t.dest.local).key() if False else None
+                for bb2, t2 in ci.calls(lambda c: c.path.endswith("::is_empty")):
+                    if t2.args and t2.dest is not None and t2.dest.is_local():
+                        o2 = ci.trace(t2.args[0])
+                        if o2.kind == "call" and o2.data == e.bb:
+                            for sw, tr, fa in _bool_switches(ci, t2.dest.local):
+                                if tr is not None:
+                                    empty |= ci.cfg.edge_dominated(sw, tr)
+            for y in ys:
+                if y == e.bb or y in empty:
+                    continue
+                if ci.cfg.can_reach(e.bb, y, avoid=empty) and not ci.cfg.dominates(y, e.bb):
+                    bad = (e, y)
+                elif ci.cfg.can_reach(e.bb, y, avoid=empty) and ci.cfg.dominates(y, e.bb):
+                    # a loop: the yield precedes the removal of the NEXT round; fine if every way from the removal to it passes the empty arm or a return
+                    if ci.cfg.path(e.bb, {y}, avoid=empty | set(ci.cfg.returns)) is not None:
+                        bad = (e, y)
+        if bad:
+            e, y = bad
+            out.violation(key, ci.loc(y), "this future is a select! branch: it removes deliveries (%s) and can then be suspended here while it alone holds them; if another "
+                          "branch of the select wins, the future is dropped and the deliveries are lost (neither outstanding nor requeued)" % e.lib.split("::")[-1],
+                          ["removal at %s" % ci.loc(e.bb), "suspension at %s" % ci.loc(y)])
+        else:
+            out.holds(key, prog.loc(cid), "after taking deliveries out it returns them without suspending (it only waits when it holds nothing)")
+    if n == 0:
+        raise CheckBroken("no select! branch future removes deliveries (the expiry poll was expected)")
